@@ -78,7 +78,7 @@ def generate(rnd, tier):
         n_rows = rnd.randint(150, 320)
     lab_kind = rnd.choice(["01", "01", "str", "multi", "bool"])
     if lab_kind == "bool":
-        labs, pos_label = [False, True], True
+        labs, pos_label = [False, True], rnd.choice([True, True, False, 0, 1])
     elif lab_kind == "01":
         labs, pos_label = [0, 1], 1
     elif lab_kind == "str":
@@ -92,6 +92,10 @@ def generate(rnd, tier):
         rows.append({"g": [rnd.choice(v) for v in vals], "label": rnd.choice(labs), "score": scores[i]})
     frame = {"group_cols": cols, "rows": rows, "extra_col": rnd.random() < 0.3, "index": rnd.choice(["default", "default", "shuffled", "str"]),
              "pos_label": pos_label, "int_scores": style == "int" and rnd.random() < 0.5}
+    if frame["int_scores"] and rnd.random() < 0.4:
+        frame["score_dtype"] = rnd.choice(["uint8", "uint16", "int32"])
+        for r_ in rows:
+            r_["score"] = float(abs(r_["score"]))
     ops = []
     fault_free = rnd.random() < 0.34
     wide_thr = sorted({round(rnd.uniform(-3, 3), 3) for _ in range(rnd.randint(60, 140))}) if wide else None
@@ -164,6 +168,8 @@ def build_frame(fr):
     order = ["label", "score"] + list(fr["group_cols"])
     data["label"] = [r["label"] for r in rows]
     data["score"] = [int(r["score"]) if fr.get("int_scores") else r["score"] for r in rows]
+    if fr.get("score_dtype"):
+        data["score"] = np.asarray(data["score"], dtype=fr["score_dtype"])
     if fr.get("extra_col"):
         data["extra"] = list(range(len(rows)))
         order = ["extra"] + order
